@@ -106,6 +106,29 @@ CLAIMED = {
    note="Rows are recognised by the index the scripted source writes into them; independence of cursors of different statements is "
         "validated by the lock-step runs.",
    technique="Coq proof (induction over the cursor's item list and over the list of fetch sizes) + translator facts + lock-step correspondence"),
+ "C08": dict(
+   text="Proved over Model/Multi.v (a finite map of independent connection machines, one event per event-loop iteration): frame - an "
+        "iteration of connection i changes no other connection and emits nothing for it; projection - for EVERY interleaving of the "
+        "connections' events each connection ends in the state and produces the outputs it produces alone on its own events "
+        "(induction over the interleaving). The product construction is tied to the code by a translator audit re-run on every "
+        "check: every module-/class-level mutable container is listed and no function writes to one; stream, session (own variable "
+        "store) and connection (own statement table) are created per socket. Differential runs: K=2..4 stateful programs under "
+        "PRNG schedules vs. the same programs alone, byte for byte.",
+   design="7/C08",
+   note="Aliasing through objects the application injects is outside the library. lru_cache on parse_timezone is a memo of a pure function. "
+        "The audit is syntactic (ast): writes through aliases it cannot resolve are covered only by the differential runs.",
+   technique="Coq proof (frame + projection by induction over interleavings) + translator shared-state audit + differential schedules"),
+ "C12": dict(
+   text="Proved for every source (any length, rows / waits / raise): after ANY write the library buffer holds fewer than B bytes or is "
+        "empty; pulled = handed + buffered rows + rows in flight is preserved by every operation (pull +1, row write -1); in the text "
+        "protocol, the binary protocol and cursor fetches at most ONE pulled row is ever waiting to be written; a source that never "
+        "suspends is interrupted by a cooperative yield after at most BATCH+1 rows from every position. B, BATCH and the "
+        "flush rule are regenerated from stream.py/utils.py. Tie: pause/resume before every event of streamed results in the three "
+        "protocols with instrumented sources, replayed on Model/Conn.v incl. its pulled/handed counters; cross-connection PING.",
+   design="7/C12",
+   note="Open finding inferred-null-column-peek (bare column names with an always-NULL column: unbounded peek). Transport buffering after "
+        "writer.write is not modelled; 'accepts' means drain() returns. The composition over whole executions is validated by lock-step.",
+   technique="Coq proof (per-operation invariants, induction over the source's item list, modular arithmetic for the yield bound) + lock-step correspondence"),
 }
 
 PENDING = {}
